@@ -14,7 +14,7 @@
                                 parameter of unknown type is not used, a procedure with such a parameter is not
                                 called, a type `t = <undefined>` is not used by later declarations.
      RedeclarationAs*           a second declaration of a name in the same scope.  The FIRST declaration stays in force,
-                                the table is unchanged.  A redeclared PARAMETER still counts as a parameter of the
+                                the table is unchanged.  A redeclared parameter still counts as a parameter of the
                                 procedure (its entry is appended to the parameter list, callers pass an argument
                                 for it); a redeclared procedure has no entry of its own and its body is not checked
                                 (nothing is prescribed for it, /repo commit c2dcb80).
@@ -393,8 +393,8 @@ Definition main_ok (G : gtable) : Prop := exists pe, lookup G s_main = Some (GPr
    against = the predefined entries, then the entries of the declarations in order, the faulty one contributing
    what `fault_gdecl` says.  ys: the prescribed diagnostics, absolute token ranges, in the order of errors(). *)
 Inductive decl_fault_program (p : program) (G : gtable) : list err -> Prop :=
-(* one faulty declaration (UndefinedType, NotAType, RedeclarationAs Type/Procedure/Parameter/Variable,
-   MustBeAReferenceParameter, MainIsNotAProcedure); main is fine *)
+(* one faulty declaration (UndefinedType, NotAType, the four Redeclaration messages, MustBeAReferenceParameter,
+   MainIsNotAProcedure next to a procedure main); main is fine *)
 | DF_decl dpre d off dpost es1 kes es2 ys :
     pg_decls p = dpre ++ (d, off) :: dpost ->
     wf_gdecls initialized dpre es1 ->
